@@ -61,6 +61,9 @@ def fstring_cases(ck):
         yield A.JoinedStr(values=[C(">"), A.FormattedValue(value=N("w"), conversion=-1, format_spec=None)])
         yield A.JoinedStr(values=[A.FormattedValue(value=N("w"), conversion=-1, format_spec=None), C(".2f")])
         yield A.JoinedStr(values=[A.FormattedValue(value=N("w"), conversion=114, format_spec=None), C("."), A.FormattedValue(value=N("p"), conversion=-1, format_spec=None)])
+        yield A.JoinedStr(values=[C("'^10")])
+        yield A.JoinedStr(values=[C('"<7')])
+        yield A.JoinedStr(values=[C("'\"x"), A.FormattedValue(value=C("q"), conversion=-1, format_spec=None)])
     def values(depth):
         yield N("x")
         yield C("s")
@@ -72,6 +75,11 @@ def fstring_cases(ck):
         yield A.Compare(left=N("a"), ops=[A.NotEq()], comparators=[N("b")])
         yield A.NamedExpr(target=A.Name(id="w", ctx=A.Store()), value=N("x"))
         yield A.Subscript(value=N("d"), slice=C("k"), ctx=A.Load())
+        yield A.Subscript(value=A.Dict(keys=[C(1)], values=[C(2)]), slice=C(1), ctx=A.Load())
+        yield A.Call(func=A.Attribute(value=A.Dict(keys=[], values=[]), attr="get", ctx=A.Load()), args=[N("x")], keywords=[])
+        yield A.BinOp(left=A.Set(elts=[N("x")]), op=A.BitOr(), right=N("y"))
+        yield A.Compare(left=A.DictComp(key=N("t"), value=N("t"), generators=[gen_expr.gen1()]), ops=[A.Eq()], comparators=[N("y")])
+        yield A.IfExp(test=N("a"), body=A.Set(elts=[N("x")]), orelse=N("c"))
         yield C(b"by")
         yield A.Call(func=A.Attribute(value=C(","), attr="join", ctx=A.Load()), args=[N("x")], keywords=[])
         if depth < 3:
